@@ -36,7 +36,7 @@ func (g *gen) yield() string {
 func (g *gen) w(format string, args ...any) { fmt.Fprintf(&g.b, format, args...) }
 
 // Patterns lists the pattern names.
-var Patterns = []string{"fanin", "pipeline", "close-range", "select-merge", "semaphore", "go-args", "ping-pong", "loop-var", "barrier", "struct-results", "nested", "nil-case", "buffer-len", "worker-pool", "done-signal"}
+var Patterns = []string{"fanin", "pipeline", "close-range", "select-merge", "semaphore", "go-args", "ping-pong", "loop-var", "barrier", "struct-results", "nested", "nil-case", "buffer-len", "worker-pool", "done-signal", "select-closed", "select-two-sends"}
 
 // Off lists pattern names that must not be generated (recorded findings).
 type Off map[string]bool
@@ -153,6 +153,30 @@ func (g *gen) block(p string) {
 		n, jobs := g.n("workers", 1, 4), g.n("jobs", 0, 8)
 		g.w("jobs := %s\nres := make(chan int, %d)\nfin := make(chan bool)\n", g.chanMake("int"), jobs+1)
 		g.w("for w := 0; w < %d; w++ {\n\tgo func() {\n\t\tfor j := range jobs {\n\t\t\t%s\t\t\tres <- square(j)\n\t\t}\n\t\tfin <- true\n\t}()\n}\nfor j := 0; j < %d; j++ {\n\tjobs <- j\n}\nclose(jobs)\nfor w := 0; w < %d; w++ {\n\t<-fin\n}\nclose(res)\nsum := 0\nfor v := range res {\n\tsum += v\n}\nprintln(\"pool\", sum)\n", n, g.yield(), jobs, n)
+	case "select-closed":
+		// a receive case chosen because the channel is closed and drained assigns the zero value,
+		// whatever was received before through a case of the same kind
+		k := g.n("count", 1, 4)
+		typ := rapid.SampledFrom([]string{"int", "string", "R", "float64"}).Draw(g.t, "sctyp")
+		val := map[string]string{"int": "i + 7", "string": `"s" + string(rune('a'+i))`, "R": "R{i + 1, i * 3}", "float64": "float64(i) + 0.5"}[typ]
+		show := map[string]string{"int": "v", "string": "v", "R": "v.ID, v.V", "float64": "v"}[typ]
+		g.w("ch := make(chan %s, %d)\n", typ, k)
+		g.w("go func() {\n\tfor i := 0; i < %d; i++ {\n\t\t%s\t\tch <- %s\n\t}\n\tclose(ch)\n}()\n", k, g.yield(), val)
+		g.w("for i := 0; i < %d; i++ {\n\tselect {\n\tcase v, ok := <-ch:\n\t\tprintln(\"select-closed\", %s, ok)\n\t}\n}\n", k+2, show)
+		g.w("var last %s\nselect {\ncase last = <-ch:\n}\n", typ)
+		if typ == "R" {
+			g.w("println(\"last\", last.ID, last.V)\n")
+		} else {
+			g.w("println(\"last\", last)\n")
+		}
+	case "select-two-sends":
+		// two send cases of the same kind in one select: each channel gets its own value
+		// (which case is chosen is not observable: only where each value went is printed)
+		x, y := g.n("x", 1, 40), g.n("y", 51, 90)
+		g.w("a, b := make(chan int, 2), make(chan int, 2)\n")
+		g.w("for i := 0; i < 2; i++ {\n\tselect {\n\tcase a <- %d + i:\n\tcase b <- %d + i:\n\t}\n}\nclose(a)\nclose(b)\n", x, y)
+		g.w("okA, okB, n := true, true, 0\nfor v := range a {\n\tn++\n\tif v < %d || v > %d {\n\t\tokA = false\n\t}\n}\nfor v := range b {\n\tn++\n\tif v < %d || v > %d {\n\t\tokB = false\n\t}\n}\n", x, x+1, y, y+1)
+		g.w("println(\"two-sends\", okA, okB, n)\n")
 	case "done-signal":
 		g.w("quit := make(chan struct{})\nticks := make(chan int)\nstopped := make(chan int)\n")
 		g.w("go func() {\n\tn := 0\n\tfor {\n\t\tselect {\n\t\tcase ticks <- n:\n\t\t\tn++\n\t\tcase <-quit:\n\t\t\tstopped <- n\n\t\t\treturn\n\t\t}\n\t}\n}()\n")
